@@ -349,7 +349,7 @@ func (fx *FuncCtx) assertInvariants(st *State, f *Frame, ord int, phase string, 
 			g := And(BVSle(BVConst(v.So.W, 0), old), BVSlt(v, old))
 			st.obligeP("decreases", fmt.Sprintf("loop%d.decreases#%s", ord, c.Name), g, f.ct.propsOf(c), token.NoPos)
 		}
-		if len(ds) == 0 && f.ct != nil && f.ct.Safe && f.ct.Opts["termination"] != "off" {
+		if len(ds) == 0 && f.ct != nil && f.ct.Safe && f.ct.Opts["termination"] != "off" && !isRangeLoop(blk) {
 			// a safe function must give a variant for every loop
 			st.obligeP("decreases", fmt.Sprintf("loop%d.decreases#missing", ord), False(), f.ct.SafeProps, token.NoPos)
 		}
@@ -357,8 +357,27 @@ func (fx *FuncCtx) assertInvariants(st *State, f *Frame, ord int, phase string, 
 	}
 }
 
+// isRangeLoop: the loop is a range over a slice/array/string (its head has the compiler-generated
+// index phi). Such loops terminate by construction: the hidden index goes from 0 to len-1.
+func isRangeLoop(blk *ssa.BasicBlock) bool {
+	for _, in := range blk.Instrs {
+		if phi, ok := in.(*ssa.Phi); ok && phi.Comment == "rangeindex" {
+			return true
+		}
+	}
+	return false
+}
+
 func (fx *FuncCtx) assumeInvariants(st *State, f *Frame, ord int, lv *loopVisit) {
 	blk := f.blk
+	// the hidden range index starts at -1 and is only incremented while below the length
+	for _, in := range blk.Instrs {
+		if phi, ok := in.(*ssa.Phi); ok && phi.Comment == "rangeindex" {
+			if t, ok := f.vals[phi].(Term); ok {
+				st.assume(And(BVSle(BVConst(64, -1), t), BVSlt(t, BVConstU(64, 1<<maxSliceLog))))
+			}
+		}
+	}
 	env := fx.frameEnv(st, f)
 	fx.bindLoopLocals(env, st, f)
 	for _, c := range fx.loopClauses(f, blk, ord, func(c *Contract) map[string][]Clause { return c.Invariants }) {
@@ -381,9 +400,10 @@ func (fx *FuncCtx) bindLoopLocals(env *SpecEnv, st *State, f *Frame) {
 		}
 	}
 	for name, v := range f.locals {
-		if _, exists := env.vars[name]; exists {
+		if _, isGhost := fx.ghost[name]; isGhost && f.ct == fx.ct {
 			continue
 		}
+		// loop clauses see the current value of every variable, reassigned parameters included
 		if lp, ok := v.(localAddr); ok {
 			if env.addrs == nil {
 				env.addrs = map[string]PtrVal{}
